@@ -5,10 +5,45 @@ package main
 // knowledge of the library.
 
 import (
+	"fmt"
 	"reflect"
+	"sync"
 
 	"github.com/gregoryv/mq"
 )
+
+// A panic raised by the library while the driver merely *observes* a packet (an accessor, WellFormed, String for the
+// printed size, the re-encoding of a decoded packet) is not a panic of the operation the step performs: it is recorded
+// as a Panic event of its own (op = what was being called) behind the step's event, the observation simply lacks the
+// value, and the program goes on.
+var (
+	sideMu     sync.Mutex
+	sidePanics []obj
+)
+
+func guarded(op, method string, f func()) (ok bool) {
+	defer func() {
+		if r := recover(); r != nil {
+			if _, isBudget := r.(budgetAbort); isBudget {
+				panic(r)
+			}
+			sideMu.Lock()
+			sidePanics = append(sidePanics, obj{"ev": "Panic", "op": op, "m": method, "site": panicSite(), "msg": fmt.Sprint(r), "side": true})
+			sideMu.Unlock()
+			ok = false
+		}
+	}()
+	f()
+	return true
+}
+
+func takeSidePanics() []obj {
+	sideMu.Lock()
+	defer sideMu.Unlock()
+	out := sidePanics
+	sidePanics = nil
+	return out
+}
 
 type obj = map[string]any
 
@@ -107,21 +142,25 @@ func projectDepth(p any, depth int) obj {
 		if mt.NumIn() != 1 || mt.NumOut() != 1 || mt.Out(0) == tMalformed {
 			continue
 		}
-		res := v.Method(i).Call(nil)
-		if c, ok := convValue(res[0], depth); ok {
-			out[m.Name] = c
-		}
+		guarded("Accessor", m.Name, func() {
+			res := v.Method(i).Call(nil)
+			if c, ok := convValue(res[0], depth); ok {
+				out[m.Name] = c
+			}
+		})
 	}
 	// flag bytes exposed through HasFlag(mask)
 	if hf := v.MethodByName("HasFlag"); hf.IsValid() && hf.Type().NumIn() == 1 && hf.Type().In(0).Kind() == reflect.Uint8 {
-		flags := 0
-		for k := 0; k < 8; k++ {
-			r := hf.Call([]reflect.Value{reflect.ValueOf(byte(1 << k))})
-			if r[0].Bool() {
-				flags |= 1 << k
+		guarded("Accessor", "HasFlag", func() {
+			flags := 0
+			for k := 0; k < 8; k++ {
+				r := hf.Call([]reflect.Value{reflect.ValueOf(byte(1 << k))})
+				if r[0].Bool() {
+					flags |= 1 << k
+				}
 			}
-		}
-		out["Flags"] = flags
+			out["Flags"] = flags
+		})
 	}
 	// embedded exported fields (UserProperties)
 	if t.Kind() == reflect.Ptr && t.Elem().Kind() == reflect.Struct {
@@ -138,7 +177,7 @@ func projectDepth(p any, depth int) obj {
 	}
 	// WellFormed, where the type has it
 	if wf, ok := p.(mq.HasWellFormed); ok {
-		out["WF"] = wf.WellFormed() == nil
+		guarded("WellFormed", "WellFormed", func() { out["WF"] = wf.WellFormed() == nil })
 	}
 	out["type"] = t.Elem().Name()
 	return out
